@@ -35,14 +35,15 @@ TRUSTED = [
     "the constructors' chains of refusals, _is_prime, the _a_is_zero / _a_is_minus_3 flags, the stand-ins, double_jac / "
     "_double_jac_helper and _multiplier_decomposer are TRANSLATED from the source each run (Generated/C01Ctor.lean, "
     "Generated/C01Glv.lean) and the model is proved equal to them",
-    "primality of secp256k1 p and n is proved (Pratt certificates); for the other catalogued curves it is a hypothesis of the curve theorems (the code itself runs a Fermat base-2 test)",
+    "primality of p and n of EVERY catalogued curve is proved (Pratt certificates, catalogue_ok_all over the regenerated catalogue); for a caller-defined curve it is a hypothesis of new_curve_is_curve_ok (the code itself runs a Fermat base-2 test)",
     "that the Jacobian formulas are the group law is Proofs/C01/JacRefine.lean (T1); the ladder theorems take it as "
     "the named hypothesis JacRel, discharged for btclib's arithmetic by jac_rel_ec",
     "refusal of off-curve points / length mismatch by the entry points holds by construction of the model; the real refusal is "
     "tied by the curve.entry.* streams and the offcurve.refused oracle",
 ]
-ASSUMPTIONS = ["Nat.Prime p, Nat.Prime n for the catalogued curves other than secp256k1 (proved there); new_curve_is_curve_ok takes both as hypotheses",
-               "EndoLaw only for points outside <G> (proved on <G> for secp256k1)",
+ASSUMPTIONS = ["Nat.Prime p, Nat.Prime n only for caller-defined curves (new_curve_is_curve_ok); proved for all 27 catalogued curves",
+               "cofactor one (hcof) only in the GENERIC transfer ops_sub_hom_of_cofactor_one; proved for secp256k1 and the toy curve",
+               "EndoLaw only in the generic `_given_endo_law` forms (proved for secp256k1, whose <G> is the whole curve)",
                "NoTwoTorsionIn H for the subgroup the operands live in (every subgroup of odd order)",
                "libsecp256k1 is compared, not verified"]
 
@@ -698,8 +699,10 @@ def _run_jac(ctx, rng):
     pmax = 31 if ctx.tier == "quick" else 101
     lines_add, lines_aff, lines_dbl = [], [], []
     for p, a, b in all_toy_params(pmax):
-        if ctx.tier == "quick" and p > 13 and rng.random() < 0.9:
-            continue  # quick: every p <= 31, every (a, b) up to 13 and a seeded tenth of them above
+        if ctx.tier == "quick" and p > 13 and rng.random() < 0.94:
+            continue  # quick: every p <= 31, every (a, b) up to 7, and a seeded 6 % of them above 13 (all in thorough)
+        if ctx.tier == "quick" and 7 < p <= 13 and a not in (0, p - 3) and rng.random() < 0.5:
+            continue  # quick, p = 11, 13: the two special a-classes always, a seeded half of the general ones
         if ctx.tier != "quick" and p > 31 and rng.random() > 40 / (p * p):
             continue  # thorough: every (a, b) up to p = 31, some forty seeded curves for each p up to 101
         pts = toy_points(p, a, b)
@@ -830,9 +833,15 @@ def _run_catalogue_ladders(ctx, rng):
         scal = scalar_classes(rng, n, nlen)
         big = nlen > 300
         algos = ["mult", "reg", "fb", "jacvar", "wnaf", "mont"] if quick else SINGLE
+        if quick and big:
+            # quick: on the curves above 300 bits (a fixed-base table there costs the model ~0.1 s a line) `mult` and a
+            # seeded half of the other ladders; every ladder on every curve is the thorough tier
+            algos = ["mult"] + rng.sample(algos[1:], 2)
         for alg in algos:
             ws = {"reg": [1, 4, 7], "fb": [4, 6], "wnaf": [1, 2, 5], "fw": [1, 4], "fwc": [4, 5], "fwpos": [4],
                   "slide": [1, 4, 5]}.get(alg, [0])
+            if quick and alg == "fb":
+                ws = [rng.choice(ws)]  # quick: one seeded table width a curve, both in thorough
             for w in ws:
                 k = (3 if (big or alg != "mult") else 10) if quick else (len(scal) if not big else 8)
                 if quick and alg == "fb":
@@ -977,7 +986,8 @@ def _run_entry(ctx, rng, pub):
             ctx.check("mult.grouplaw", {"curve": name, "m": m, "Q": list(Q)})
         m, v = rng.choice(scal), rng.choice(scal)
         lines.append(f"curve.dmult {name} {m} {atok(rng.choice([ec.G, P, INF]))} {v} {atok(rng.choice([ec.G, P, INF]))}")
-        lines.append(f"curve.prepared {name} 1 {m} {atok(P)}")
+        if not (big and ctx.tier == "quick") or rng.random() < 0.3:  # quick: a seeded third of the curves above 300 bits
+            lines.append(f"curve.prepared {name} 1 {m} {atok(P)}")
         if not (big and ctx.tier == "quick"):
             lines.append(f"curve.tweak {name} 1 {atok(rng.choice([P, INF]))} {v}")
         lines.append(f"curve.sum {name} {atok(P)},{atok(ec.G)},{atok(ec.negate(P))},{atok(INF)}")
@@ -995,9 +1005,11 @@ def _run_entry(ctx, rng, pub):
         Q = rng.choice([ec.G, P, INF])
         lines.append(f"curve.mult secp256k1 1 {m} {atok(Q)}")
         lines.append(f"curve.dmult secp256k1 {m} {atok(Q)} {v} {atok(rng.choice([ec.G, P, INF, ec.negate(P)]))}")
-        lines.append(f"curve.tweak secp256k1 1 {atok(rng.choice([P, INF, ec.negate(ec.G)]))} {rng.choice([m, 1, 0, ec.n - 1])}")
+        if ctx.tier != "quick" or rng.random() < 0.5:  # mult(t, G) is a fixed-base table in the model: sampled in quick
+            lines.append(f"curve.tweak secp256k1 1 {atok(rng.choice([P, INF, ec.negate(ec.G)]))} {rng.choice([m, 1, 0, ec.n - 1])}")
         lines.append(f"curve.sum secp256k1 {atok(P)},{atok(Q)},{atok(ec.negate(P))}")
-        lines.append(f"curve.prepared secp256k1 1 {m} {atok(P)}")
+        if ctx.tier != "quick" or rng.random() < 0.4:  # a fixed-base table per fresh point: sampled in quick
+            lines.append(f"curve.prepared secp256k1 1 {m} {atok(P)}")
     for sv in (False, True) if C._bindings_installed else (False,):  # x outside 0..p-1: refused by both backends
         P = _rand_point(rng, ec)
         for Q in ((P[0] + ec.p, P[1]), (P[0] - ec.p, P[1]), (ec.G[0] + ec.p, ec.G[1])):
